@@ -237,7 +237,10 @@ def run_one(desc):
     stats = {"depth_%d" % len(desc["layers"]): 1}
     for k, _p in desc["layers"]:
         stats["layer_" + k] = stats.get("layer_" + k, 0) + 1
-    verdicts = []
+    # every state change of a library future in the stack must have been made under that future's own lock (the locking protocol
+    # of Model/MeFuture.lean, on which "a callback registered while the future completes is not lost" rests)
+    from props.common import protocol_verdicts
+    verdicts = list(protocol_verdicts(s))
     sample = None
     if s.end_reason == "limit" or not ctx.completed:
         hits += [h for h in out.get("C03", []) if h["sig"] == "C03/livelock"]
